@@ -1,14 +1,24 @@
 (* C10 - refcount: a value returned by Wait, Resolve or ResolveWithReleased is not released before the caller releases
    the returned reference, unless it was invalidated, in which case the released callback (if given) fires exactly once.
-   Statements only, about the gate-level model RefCount.Model (REPAIRED code), for ALL event lists.
-   PARTIAL: the Access clauses of C10 (callback context cancelled on change, restart with the new value) are not in the
-   model yet (the cb_access callback exists, the Access caller's steps do not); nothing is claimed about Access.
-   NOT PROVED (stated for completeness): that the value a consumer returned is one of the delivered values, i.e.
+   Access invokes its callback with the value that was current when Access last looked; whenever that value is
+   invalidated, before or during the callback, the callback's context is cancelled promptly and after the callback
+   returns it is invoked again with the replacement value; Access returns the callback's own result only from an
+   invocation whose value was not invalidated between the moment Access looked and the callback's return; a resolver
+   error or a cancelled caller context is returned as such.
+   Statements only, about the gate-level model RefCount.Model (REPAIRED code), for ALL event lists.  The Access theorems
+   do not need [wf_ev]: they also hold when resolver values repeat across generations (the ABA shape).
+   NOT PROVED (stated for completeness): that the value a Wait / ResolveWithReleased consumer returned is one of the
+   delivered values, i.e.
      forall c x v, nth_error (conss s) c = Some x -> cpcv x = CRet v 0 true -> exists g, v = S g /\ gdone (getg s g) = true;
    with it, the second disjunct of c10_returned_value_not_released_while_held (a superseded goroutine releasing its own
    result g+1, which by c08_pending_value_not_in_circulation was never delivered to any reference) could be excluded
-   for the consumer's value syntactically.  The monitors check this clause on every implementation trace (clause 10.1). *)
-From Util Require Import Common.Base Common.ListLemmas RefCount.Model RefCount.Proofs RefCount.ProofsC08 RefCount.ProofsC08b RefCount.ProofsC10.
+   for the consumer's value syntactically.  The monitors check this clause on every implementation trace (clause 10.1).
+   Modelling notes for Access: its private Broadcast is not gated, so section S1 (look), the check after the callback
+   (S2) and the wake-up from the wait are steps of the consumer itself ([cons_step], [cb_return]) that may be delayed
+   arbitrarily in the theorems; when both the caller's cancellation and a change are pending at the wait, the model
+   takes the change first (Go's select may take either; the result of the other order is the cancellation branch). *)
+From Util Require Import Common.Base Common.ListLemmas RefCount.Model RefCount.Proofs RefCount.ProofsC08 RefCount.ProofsC08b RefCount.ProofsC10
+  RefCount.ProofsC10a RefCount.ProofsC10b.
 
 (* while some reference (in particular the one returned to the caller) is in the set before and after a step, that step
    calls a release function only if it invalidates the stored value (SetContext with a different context, released() of
@@ -80,6 +90,99 @@ Theorem c10_error_and_cancel_passthrough : forall s c x,
 Proof. exact cons_step_result. Qed.
 Print Assumptions c10_error_and_cancel_passthrough.
 
+(* ---------------- Access ---------------- *)
+(* while an Access call runs (loop top, waiting, or inside its callback) its private reference is in the set and is the
+   one that carries its callback: every change of the container is told to it *)
+Theorem c10_access_reference_in_set : forall ku es c x,
+  let s := run repaired (init ku) es in
+  nth_error (conss s) c = Some x -> ck x = CKAccess -> attached_pc (cpcv x) = true ->
+  rin (rref s (cref x)) = true /\ rflag (rref s (cref x)) = false /\ rkind (rref s (cref x)) = KAccess c.
+Proof. exact access_ref_in_set. Qed.
+Print Assumptions c10_access_reference_in_set.
+
+(* inside the callback, while its context is not cancelled, the value it was invoked with is the container's current
+   value (resolved, no error), and no change was notified since Access looked (section S1) *)
+Theorem c10_access_called_with_current_value : forall ku es c x v,
+  let s := run repaired (init ku) es in
+  nth_error (conss s) c = Some x -> ck x = CKAccess -> cpcv x = CAccCb v -> ac_cbcanc x = false ->
+  resolved s = true /\ value s = v /\ verr s = 0 /\ ac_nonce x = ac_snap x.
+Proof. exact access_called_with_current_value. Qed.
+Print Assumptions c10_access_called_with_current_value.
+
+(* whenever the value the callback holds is invalidated - nothing resolved, another value, an error - before or during the
+   callback, the callback's context is cancelled (in every reachable state, hence "promptly": in the same section) *)
+Theorem c10_access_ctx_cancelled_on_invalidation : forall ku es c x v,
+  let s := run repaired (init ku) es in
+  nth_error (conss s) c = Some x -> ck x = CKAccess -> cpcv x = CAccCb v ->
+  (resolved s = false \/ value s <> v \/ verr s <> 0) -> ac_cbcanc x = true.
+Proof. exact access_ctx_cancelled_on_invalidation. Qed.
+Print Assumptions c10_access_ctx_cancelled_on_invalidation.
+
+(* the callback returns: Canceled if the caller's context is cancelled; the callback's own result only if no change was
+   notified since Access looked (every notification moves [ac_nonce] past the snapshot, also when the value is equal
+   again); otherwise Access goes back to the top of its loop *)
+Theorem c10_access_returns_only_unraced_result : forall s c x v res,
+  nth_error (conss s) c = Some x -> ck x = CKAccess -> cpcv x = CAccCb v ->
+  let p := cpcv (getc (cb_return repaired s c res) c) in
+  let rc := match res with 1 => if ac_cbcanc x || ccanc x then 1 else 0 | _ => res end in
+  if ccanc x then p = CRel 1 \/ p = CAccRet 1
+  else if Nat.eqb (ac_nonce x) (ac_snap x) then p = CRel rc \/ p = CAccRet rc
+  else p = CBlocked.
+Proof. exact cb_return_result. Qed.
+Theorem c10_access_nonce_never_behind_snapshot : forall ku es c x,
+  nth_error (conss (run repaired (init ku) es)) c = Some x -> ac_snap x <= ac_nonce x.
+Proof. exact access_nonce_ge_snapshot. Qed.
+Print Assumptions c10_access_returns_only_unraced_result.
+
+(* the top of the loop: a resolver error is returned as such; a resolved value is handed to the callback with a fresh
+   context (this is the re-invocation with the replacement); otherwise Canceled or wait *)
+Theorem c10_access_reinvoked_with_replacement : forall s c x,
+  nth_error (conss s) c = Some x -> ck x = CKAccess ->
+  (cpcv x = CBlocked \/ (cpcv x = CAccWait /\ ac_nonce x <> ac_snap x)) ->
+  let y := getc (cons_step s c) c in
+  if negb (Nat.eqb (ac_err x) 0) then cpcv y = CRel (ac_err x) \/ cpcv y = CAccRet (ac_err x)
+  else if ac_res x then cpcv y = CAccCb (ac_val x) /\ ac_cbcanc y = false /\ ac_nonce y = ac_snap y
+  else if ccanc x then cpcv y = CRel 1 \/ cpcv y = CAccRet 1
+  else cpcv y = CAccWait /\ ac_nonce y = ac_snap y.
+Proof. exact access_loop_step. Qed.
+Print Assumptions c10_access_reinvoked_with_replacement.
+
+(* at rest (Access's own steps not enabled) with a stored value, a running Access call is inside its callback - with the
+   current value, or still inside an invalidated invocation whose context is cancelled; with a stored error it is not
+   waiting either (the error was, or is being, returned) *)
+Theorem c10_access_in_callback_at_rest : forall ku es c x,
+  let s := run repaired (init ku) es in
+  nth_error (conss s) c = Some x -> ck x = CKAccess -> attached_pc (cpcv x) = true -> acc_settled x = true ->
+  resolved s = true ->
+  exists v, cpcv x = CAccCb v /\ (ac_cbcanc x = false -> v = value s /\ verr s = 0) /\ (verr s <> 0 -> ac_cbcanc x = true).
+Proof. exact access_reinvoked_at_rest. Qed.
+Print Assumptions c10_access_in_callback_at_rest.
+
+(* a cancelled caller context while waiting: Canceled; the final Release lets the call return the code it decided on *)
+Theorem c10_access_error_passthrough : forall s c x,
+  nth_error (conss s) c = Some x -> ck x = CKAccess -> cpcv x = CAccWait -> ac_nonce x = ac_snap x -> ccanc x = true ->
+  cpcv (getc (cons_step s c) c) = CRel 1 \/ cpcv (getc (cons_step s c) c) = CAccRet 1.
+Proof. exact access_wait_cancelled. Qed.
+Theorem c10_access_release_returns : forall s a y c e,
+  nth_error (relacts s) a = Some y -> ra_pc y = RGate -> ra_cons y = Some c -> c < length (conss s) ->
+  ck (getc s c) = CKAccess -> cpcv (getc s c) = CRel e ->
+  cpcv (getc (release_section s a) c) = CAccRet e.
+Proof. exact access_release_returns. Qed.
+Print Assumptions c10_access_error_passthrough.
+Print Assumptions c10_access_release_returns.
+
+(* the seeded variant C10_A (after the callback, "value equal again" counts as unchanged): with equal values across
+   generations Access returns the result (here: the callback's ctx.Err() = Canceled, the caller's context being live) of
+   an invocation that was invalidated; the repaired code loops and invokes the callback again *)
+Theorem c10_pinned_aba_refuted :
+  let x := getc (run pinned_c10a (init false) c10a_witness) 0 in
+  cpcv x = CRel 1 /\ ccanc x = false /\ ac_nonce x <> ac_snap x.
+Proof. exact c10a_refuted. Qed.
+Theorem c10_aba_repaired_reinvokes :
+  cpcv (getc (run repaired (init false) c10a_witness) 0) = CBlocked /\
+  cpcv (getc (run repaired (init false) (c10a_witness ++ [EConsStep 0])) 0) = CAccCb 7.
+Proof. exact c10a_repaired_loops. Qed.
+
 (* ---- non-vacuity ---- *)
 (* ResolveWithReleased returns value 1 and holds its reference; released() invalidates it: the callback's goroutine is
    spawned and parks; its section fires the released callback once *)
@@ -109,4 +212,25 @@ Proof. vm_compute. repeat split; reflexivity. Qed.
 Example c10_example_cancel_passthrough :
   let s := run repaired (init false) [ESetCtx 1; EStartCons 1; EConsCancel 0; EConsStep 0; ERelSect 0] in
   cpcv (getc s 0) = CRet 0 1 false.
+Proof. vm_compute. reflexivity. Qed.
+
+(* Access: invoked with the current value; invalidated during the callback (context cancelled); after the callback returns
+   it waits, and is invoked again with the replacement; an unraced result is returned *)
+Example c10_example_access :
+  let es := [ESetCtx 1; EStartCons 2; EConsStep 0; EProceed 0 true; EResReturn 0 1 true 0; EStore 0; EConsStep 0] in
+  let s := run repaired (init false) es in
+  cpcv (getc s 0) = CAccCb 1 /\ ac_cbcanc (getc s 0) = false /\ value s = 1 /\
+  let s1 := run repaired s [ESetCtx 2] in
+  cpcv (getc s1 0) = CAccCb 1 /\ ac_cbcanc (getc s1 0) = true /\ resolved s1 = false /\
+  let s2 := run repaired s1 [ECbReturn 0 10; EConsStep 0] in
+  cpcv (getc s2 0) = CAccWait /\
+  let s3 := run repaired s2 [EProceed 1 true; EResReturn 1 2 false 0; EStore 1; EConsStep 0] in
+  cpcv (getc s3 0) = CAccCb 2 /\ ac_cbcanc (getc s3 0) = false /\
+  let s4 := run repaired s3 [ECbReturn 0 11; ERelSect 0] in
+  cpcv (getc s4 0) = CAccRet 11 /\ nrefs s4 = 0.
+Proof. vm_compute. repeat split; reflexivity. Qed.
+
+Example c10_example_access_error :
+  let s := run repaired (init false) [ESetCtx 1; EStartCons 2; EConsStep 0; EProceed 0 true; EResReturn 0 1 false 3; EStore 0; EConsStep 0; ERelSect 0] in
+  cpcv (getc s 0) = CAccRet 3.
 Proof. vm_compute. reflexivity. Qed.
